@@ -537,6 +537,569 @@ fn sugg_real_streams(ctx: &Ctx, words: &Words, dialects: &[usize], rng: &mut Rng
     (corpus, rest)
 }
 
+// ------------------------------------------------------------------------------------------------
+// w25: words at random positions in random sentences (several sentences, several separators, the same non-word twice, Latin
+// letters outside ASCII, plain and Markdown, all four dialects in both tiers, the front-ends' merged dictionary
+// [curated, user, file], a long-lived LintGroup next to a fresh SpellCheck), the same texts through harper-wasm's `Linter`
+// (`import_words`, `Language::Plain` / `Markdown`, every `Dialect`) and through harper-ls (user dictionary FILE, `dialect`
+// setting, two documents open at once, `plaintext` and `markdown`). O only, plus K `acc` on a sample of the placed words.
+// ------------------------------------------------------------------------------------------------
+
+/// class of the recorded finding (known_findings.json; the same root as C07's `c07-other-dialect-word`): a word the USER dictionary
+/// lists is reported when the curated dictionary lists the same letters for another dialect only
+const C06_USER_OTHER_DIALECT: &str = "c06-user-word-of-other-dialect";
+
+/// narrow matcher: the curated dictionary has an entry with the same letters (any capitalisation) whose dialect tag is another dialect
+fn user_word_of_other_dialect(curated: &FstDictionary, w: &str, dialect: Dialect) -> bool {
+    curated.get_word_metadata(&cs(w)).is_some_and(|m| m.dialect.is_some_and(|d| d != dialect))
+}
+
+/// one word put into a text: char offset, char length, kind 0 = listed by the curated dictionary and admitted by the dialect (in
+/// a form the property names), 1 = in no capitalisation in any dictionary, 2 = listed by the user / file dictionary in exactly
+/// this capitalisation
+#[derive(Clone, Debug)]
+struct Placed {
+    at: usize,
+    len: usize,
+    word: String,
+    kind: u8,
+}
+
+struct W25Dicts {
+    user_words: Vec<String>,
+    file_words: Vec<String>,
+    merged: std::sync::Arc<harper_core::MergedDictionary>,
+    /// lower∘normalize keys of the user and file words
+    keys: std::collections::HashSet<String>,
+}
+
+const W25_USER: [&str; 8] = ["markdown", "github", "javascript", "Zqxvword", "zqxvlower", "HARPERISH", "blorked", "iphone"];
+const W25_FILE: [&str; 5] = ["Fileonlyword", "zqxwfile", "Markdown", "blorkedly", "GitHub"];
+
+fn w25_dicts() -> W25Dicts {
+    use harper_core::MergedDictionary;
+    use std::sync::Arc;
+    let user_words: Vec<String> = W25_USER.iter().map(|s| s.to_string()).collect();
+    let file_words: Vec<String> = W25_FILE.iter().map(|s| s.to_string()).collect();
+    // filled the way harper-ls / harper-cli `load_dict` and harper-wasm `import_words` do: extend_words, default metadata
+    let mut user = MutableDictionary::new();
+    user.extend_words(user_words.iter().map(|w| (cs(w), WordMetadata::default())));
+    let mut file = MutableDictionary::new();
+    file.extend_words(file_words.iter().map(|w| (cs(w), WordMetadata::default())));
+    let mut merged = MergedDictionary::new();
+    merged.add_dictionary(FstDictionary::curated());
+    merged.add_dictionary(Arc::new(user));
+    merged.add_dictionary(Arc::new(file));
+    let keys = user_words.iter().chain(file_words.iter()).map(|w| lownorm(&cs(w))).collect();
+    // none of these words has a curated namesake tagged with a dialect (else the recorded finding above would apply)
+    debug_assert!(user_words.iter().chain(file_words.iter()).all(|w| !FstDictionary::curated().get_word_metadata(&cs(w)).is_some_and(|m| m.dialect.is_some())));
+    W25Dicts { user_words, file_words, merged: Arc::new(merged), keys }
+}
+
+fn only_spellcheck_on<D: Dictionary + 'static>(dict: std::sync::Arc<D>, dialect: Dialect) -> LintGroup {
+    let mut lg = LintGroup::new_curated(dict, dialect);
+    lg.config.clear();
+    lg.set_all_rules_to(Some(false));
+    lg.config.set_rule_enabled("SpellCheck", true);
+    lg
+}
+
+/// a word of letters only that the lexer takes as one Word token
+fn clean_word(w: &[char]) -> bool {
+    w.len() >= 2 && w.iter().all(|c| crate::tokfmt::is_english_lingual(*c))
+}
+
+/// the clean words the dictionary tags with dialect `d`
+fn w25_tagged(words: &Words, clean: &[usize], dict: &FstDictionary, d: Dialect) -> Vec<usize> {
+    clean.iter().copied().filter(|i| dict.get_word_metadata(&words.all[*i]).is_some_and(|m| m.dialect == Some(d))).collect()
+}
+
+const W25_SEPS: [&str; 9] = [" ", " ", " ", ", ", "; ", ": ", " (", ") ", " - "];
+const W25_ENDS: [&str; 5] = [". ", "! ", "? ", ".\n", ".\n\n"];
+const W25_LATIN: [char; 8] = ['é', 'ö', 'ñ', 'ü', 'ç', 'å', 'É', 'Ø'];
+
+/// a text of 1–3 sentences of 3–7 words: listed words admitted by `dialect` (listed form; lower-case entries also Capitalised and
+/// UPPER-CASE), non-words (an earlier one again with probability 1/3; `latin`: with a letter outside ASCII), user / file words
+fn w25_text(words: &Words, clean: &[usize], tagged: &[usize], dict: &FstDictionary, dialect: Dialect, extra: &[String], keys: &std::collections::HashSet<String>, latin: bool, ascii_only: bool, rng: &mut Rng) -> (String, Vec<Placed>) {
+    let mut text = String::new();
+    let mut n_chars = 0usize;
+    let mut placed: Vec<Placed> = vec![];
+    let mut nonwords: Vec<String> = vec![];
+    let n_sent = rng.range(1, 3);
+    for _ in 0..n_sent {
+        let n_words = rng.range(3, 7);
+        for wi in 0..n_words {
+            let roll = rng.below(20);
+            let (form, kind): (String, u8) = if roll < 3 {
+                // a non-word
+                if !nonwords.is_empty() && rng.chance(1, 3) {
+                    (rng.pick(&nonwords).clone(), 1)
+                } else {
+                    let mut made = None;
+                    for _ in 0..20 {
+                        let base = &words.all[*rng.pick(clean)];
+                        let mut w: Vec<char> = base.iter().copied().filter(|c| c.is_ascii_alphabetic()).collect();
+                        if w.len() < 3 {
+                            continue;
+                        }
+                        let letter = if latin && !ascii_only && rng.chance(1, 2) { *rng.pick(&W25_LATIN) } else { (b'a' + rng.below(26) as u8) as char };
+                        match rng.below(4) {
+                            0 => { let at = rng.below(w.len() + 1); w.insert(at, letter); }
+                            1 => { let at = rng.below(w.len()); w[at] = letter; }
+                            2 => { let at = rng.below(w.len() - 1); w.swap(at, at + 1); w.push(letter); }
+                            _ => { w = (0..rng.range(4, 9)).map(|_| (b'a' + rng.below(26) as u8) as char).collect(); if latin && !ascii_only { let at = rng.below(w.len()); w[at] = letter; } }
+                        }
+                        let k = lownorm(&w);
+                        if !words.by_key.contains_key(&k) && !keys.contains(&k) {
+                            made = Some(w.iter().collect::<String>());
+                            break;
+                        }
+                    }
+                    match made {
+                        Some(m) => { nonwords.push(m.clone()); (m, 1) }
+                        None => ("qqzzxv".to_string(), 1),
+                    }
+                }
+            } else if roll < 5 && !extra.is_empty() {
+                (rng.pick(extra).clone(), 2)
+            } else {
+                // a listed word the dialect admits
+                let mut pick = None;
+                for _ in 0..50 {
+                    // one in eight from the words the dictionary tags with this very dialect
+                    let w = &words.all[if !tagged.is_empty() && rng.chance(1, 8) { *rng.pick(tagged) } else { *rng.pick(clean) }];
+                    if ascii_only && !w.iter().all(|c| c.is_ascii()) {
+                        continue;
+                    }
+                    if dict.get_word_metadata(w).is_some_and(|m| m.dialect.is_none_or(|x| x == dialect)) {
+                        pick = Some(w.clone());
+                        break;
+                    }
+                }
+                let w = pick.unwrap_or_else(|| cs("word"));
+                let ws: String = w.iter().collect();
+                let lower_entry = w.iter().all(|c| c.is_lowercase());
+                let form = if lower_entry && (rng.chance(1, 6) || (wi == 0 && rng.chance(1, 2))) {
+                    cap_first_form(&w).map(|c| c.iter().collect()).unwrap_or(ws)
+                } else if lower_entry && rng.chance(1, 10) && ws.to_uppercase().chars().count() == w.len() {
+                    ws.to_uppercase()
+                } else {
+                    ws
+                };
+                (form, 0)
+            };
+            let len = form.chars().count();
+            placed.push(Placed { at: n_chars, len, word: form.clone(), kind });
+            text.push_str(&form);
+            n_chars += len;
+            let sep: &str = if wi + 1 == n_words { *rng.pick(&W25_ENDS[..]) } else { *rng.pick(&W25_SEPS[..]) };
+            text.push_str(sep);
+            n_chars += sep.chars().count();
+        }
+    }
+    (text, placed)
+}
+
+/// the property's clauses on the spelling lints `lints` (char spans + suggestions) of a text; `single(at, len)` = the
+/// word is one Word token of the document; `okword(cand)` = the active dictionary lists `cand` exactly and the dialect admits it.
+/// Classes end in `suffix` (the stream they were observed in).
+fn w25_judge(placed: &[Placed], single: &dyn Fn(usize, usize) -> bool, lints: &[(usize, usize, Vec<Vec<char>>)], okword: &dyn Fn(&[char]) -> bool, suffix: &str) -> (Vec<(String, String)>, Vec<&'static str>) {
+    let mut fails = vec![];
+    let mut counts = vec![];
+    for p in placed {
+        let covering: Vec<&(usize, usize, Vec<Vec<char>>)> = lints.iter().filter(|l| l.0 < p.at + p.len && p.at < l.1).collect();
+        let one = single(p.at, p.len);
+        match p.kind {
+            1 => {
+                if !one {
+                    counts.push("w25:nonword-not-one-token");
+                } else if covering.is_empty() {
+                    fails.push((format!("nonword-accepted-{}", suffix), format!("{:?} is in no capitalisation in the dictionary but is not reported", p.word)));
+                } else if !(covering.len() == 1 && covering[0].0 == p.at && covering[0].1 == p.at + p.len) {
+                    fails.push((format!("span-not-exact-{}", suffix), format!("the spelling lint for {:?} at {}..{} covers {:?}", p.word, p.at, p.at + p.len, covering.iter().map(|l| (l.0, l.1)).collect::<Vec<_>>())));
+                } else {
+                    counts.push("w25:nonword-reported-exactly");
+                }
+            }
+            k => {
+                if !covering.is_empty() {
+                    let class = if !one && unlexable_shape(&cs(&p.word)) { "c06-unlexable-entry".to_string() } else { format!("listed-word-flagged-{}", suffix) };
+                    fails.push((class, format!("{:?} ({}) is reported misspelt", p.word, if k == 2 { "listed by the user / file dictionary in exactly this capitalisation" } else { "a form of a word the curated dictionary lists for this dialect" })));
+                } else {
+                    counts.push(if k == 2 { "w25:user-word-accepted" } else { "w25:listed-accepted" });
+                }
+            }
+        }
+    }
+    for l in lints {
+        for sv in &l.2 {
+            let mut low_first = sv.clone();
+            if let Some(c) = low_first.first_mut() {
+                let lc: Vec<char> = c.to_lowercase().collect();
+                if lc.len() == 1 {
+                    *c = lc[0];
+                }
+            }
+            if !(okword(sv) || okword(&low_first)) {
+                fails.push((format!("suggestion-not-a-word-{}", suffix), format!("suggestion {:?} for the word at {}..{} is not a dictionary word of the dialect", sv.iter().collect::<String>(), l.0, l.1)));
+            }
+            counts.push("w25:suggestion-checked");
+        }
+    }
+    (fails, counts)
+}
+
+fn w25_input(via: &str, text: &str, placed: &[Placed], dialect: usize, markdown: bool, merged: bool) -> Value {
+    json!({"kind": "w25", "via": via, "text": text, "dialect": dialect, "markdown": markdown, "merged": merged,
+           "placed": placed.iter().map(|p| json!([p.at, p.len, p.kind, p.word])).collect::<Vec<_>>()})
+}
+
+fn w25_placed_of(v: &Value) -> Vec<Placed> {
+    v["placed"].as_array().map(|a| a.iter().map(|p| Placed { at: p[0].as_u64().unwrap_or(0) as usize, len: p[1].as_u64().unwrap_or(0) as usize, kind: p[2].as_u64().unwrap_or(0) as u8, word: p[3].as_str().unwrap_or("").to_string() }).collect()).unwrap_or_default()
+}
+
+fn w25_lints_of(ls: Vec<Lint>) -> Vec<(usize, usize, Vec<Vec<char>>)> {
+    ls.into_iter()
+        .filter(|l| l.lint_kind == LintKind::Spelling)
+        .map(|l| (l.span.start, l.span.end, l.suggestions.iter().filter_map(|s| if let Suggestion::ReplaceWith(v) = s { Some(v.clone()) } else { None }).collect()))
+        .collect()
+}
+
+struct W25Out {
+    fails: Vec<(String, String)>,
+    counts: Vec<&'static str>,
+    /// (word, accepted) of the placed words that are single Word tokens, for K `acc`
+    decisions: Vec<(Vec<char>, bool)>,
+}
+
+/// harper-core: `Document::new` with the parser and the active dictionary, the lints of `lg` (long-lived) or of a fresh `SpellCheck`
+fn w25_core<D: Dictionary + Clone>(text: &str, placed: &[Placed], dialect: Dialect, markdown: bool, dict: &D, lg: Option<&mut LintGroup>, suffix: &str) -> Result<W25Out, String> {
+    let r = guarded(|| {
+        let doc = if markdown { Document::new(text, &harper_core::parsers::Markdown::default(), dict) } else { Document::new(text, &PlainEnglish, dict) };
+        let lints = match lg {
+            Some(lg) => lg.lint(&doc),
+            None => SpellCheck::new(dict.clone(), dialect).lint(&doc),
+        };
+        (doc, w25_lints_of(lints))
+    })?;
+    let (doc, lints) = r;
+    let single = |at: usize, len: usize| doc.get_tokens().iter().any(|t| matches!(t.kind, TokenKind::Word(_)) && t.span.start == at && t.span.end == at + len);
+    let okword = |c: &[char]| dict.contains_exact_word(c) && dict.get_word_metadata(c).is_some_and(|m| m.dialect.is_none_or(|x| x == dialect));
+    let (fails, counts) = w25_judge(placed, &single, &lints, &okword, suffix);
+    let decisions = placed.iter().filter(|p| p.kind != 2 && single(p.at, p.len)).map(|p| (cs(&p.word), !lints.iter().any(|l| l.0 < p.at + p.len && p.at < l.1))).collect();
+    Ok(W25Out { fails, counts, decisions })
+}
+
+fn w25_sentences(sess: &mut Session, ctx: &Ctx, words: &Words, dicts: &W25Dicts, rng: &mut Rng) {
+    let thorough = ctx.tier == Tier::Thorough;
+    let dict = FstDictionary::curated();
+    let clean: Vec<usize> = (0..words.all.len()).filter(|i| clean_word(&words.all[*i])).collect();
+    let extra: Vec<String> = dicts.user_words.iter().chain(dicts.file_words.iter()).cloned().collect();
+    // (text, placed, dialect index, markdown, merged dictionary)
+    let n = if thorough { 12000 } else { 2400 };
+    let tagged: Vec<Vec<usize>> = (0..4).map(|d| w25_tagged(words, &clean, &dict, DIALECTS[d])).collect();
+    let mut jobs: Vec<(String, Vec<Placed>, usize, bool, bool)> = vec![];
+    for i in 0..n {
+        let d = i % 4;
+        let merged = (i / 4) % 2 == 1;
+        let markdown = (i / 8) % 2 == 1;
+        let latin = rng.chance(1, 3);
+        let (text, placed) = w25_text(words, &clean, &tagged[d], &dict, DIALECTS[d], if merged { &extra } else { &[] }, &dicts.keys, latin, false, rng);
+        jobs.push((text, placed, d, markdown, merged));
+    }
+    // one long-lived group per (dialect, dictionary) and chunk; every fourth text also through a fresh SpellCheck
+    let chunks: Vec<&[(String, Vec<Placed>, usize, bool, bool)]> = jobs.chunks(200).collect();
+    let results = par_map(chunks.len(), 16, |ci| {
+        let dict = FstDictionary::curated();
+        let mut groups: HashMap<(usize, bool), LintGroup> = HashMap::new();
+        let mut out: Vec<(Result<W25Out, String>, Option<Result<W25Out, String>>)> = vec![];
+        for (ti, (text, placed, d, markdown, merged)) in chunks[ci].iter().enumerate() {
+            let lg = groups.entry((*d, *merged)).or_insert_with(|| if *merged { only_spellcheck_on(dicts.merged.clone(), DIALECTS[*d]) } else { only_spellcheck(DIALECTS[*d]) });
+            let a = if *merged { w25_core(text, placed, DIALECTS[*d], *markdown, &dicts.merged, Some(lg), "in-sentence") } else { w25_core(text, placed, DIALECTS[*d], *markdown, &dict, Some(lg), "in-sentence") };
+            let b = if ti % 4 == 0 {
+                Some(if *merged { w25_core(text, placed, DIALECTS[*d], *markdown, &dicts.merged, None, "in-sentence") } else { w25_core(text, placed, DIALECTS[*d], *markdown, &dict, None, "in-sentence") })
+            } else {
+                None
+            };
+            out.push((a, b));
+        }
+        out
+    });
+    let mut ji = 0;
+    for rs in results {
+        for (a, b) in rs {
+            let (text, placed, d, markdown, merged) = &jobs[ji];
+            ji += 1;
+            sess.count(&format!("w25:sentence:{:?}:{}:{}", DIALECTS[*d], if *markdown { "markdown" } else { "plain" }, if *merged { "merged[curated,user,file]" } else { "curated" }));
+            for (which, r) in [("long-lived LintGroup", Some(a)), ("fresh SpellCheck", b)] {
+                let Some(r) = r else { continue };
+                sess.o();
+                let input = w25_input("core", text, placed, *d, *markdown, *merged);
+                match r {
+                    Err(e) => sess.fail("panic", format!("{}: {}", which, trunc(&e, 100)), input, None),
+                    Ok(o) => {
+                        for c in o.counts {
+                            sess.count(c);
+                        }
+                        if o.fails.is_empty() && placed.iter().any(|p| p.kind == 1) {
+                            sess.nontrivial(&format!("w25:{}:{}", d, text));
+                        }
+                        for (class, desc) in o.fails {
+                            sess.fail(&class, format!("{} ({:?}, {}): {} — text {:?}", which, DIALECTS[*d], if *markdown { "Markdown" } else { "plain" }, desc, trunc(text, 120)), input.clone(), None);
+                        }
+                        // K `acc` on a sample of the decisions (the model is given the curated entries: curated dictionary only)
+                        if !*merged && which.starts_with("long") {
+                            for (w, acc) in o.decisions {
+                                if rng.chance(1, 6) {
+                                    k_case(sess, words, &dict, *d, &w, rng, Some(acc));
+                                    sess.count("w25:k-acc-in-sentence");
+                                }
+                            }
+                        }
+                    }
+                }
+            }
+        }
+    }
+}
+
+/// harper-wasm's `Linter`: every dialect, only SpellCheck on, with and without imported words, plain and Markdown, one long-lived
+/// instance per dialect
+fn w25_js(sess: &mut Session, ctx: &Ctx, words: &Words, dicts: &W25Dicts, rng: &mut Rng) {
+    use harper_wasm::{Dialect as WDialect, Language, Linter as WLinter};
+    let thorough = ctx.tier == Tier::Thorough;
+    let dict = FstDictionary::curated();
+    let clean: Vec<usize> = (0..words.all.len()).filter(|i| clean_word(&words.all[*i])).collect();
+    let linters = serde_json::to_string(&only_spellcheck(Dialect::American).config).unwrap_or_default();
+    for (d, wd) in [(0usize, WDialect::American), (1, WDialect::British), (2, WDialect::Canadian), (3, WDialect::Australian)] {
+        let Ok(mut js) = guarded(|| WLinter::new(wd)) else {
+            sess.fail("panic", "harper_wasm::Linter::new panicked".into(), json!({"kind": "w25", "via": "js", "dialect": d}), None);
+            continue;
+        };
+        if js.set_lint_config_from_json(linters.clone()).is_err() {
+            sess.count("w25:js-config-rejected");
+            continue;
+        }
+        let n = if thorough { 200 } else { 60 };
+        let tagged = w25_tagged(words, &clean, &dict, DIALECTS[d]);
+        let mut extra: Vec<String> = vec![];
+        for i in 0..n {
+            // the second half of the texts after import_words (in two calls: the second call adds to the first)
+            let imported = i >= n / 2;
+            if i == n / 2 {
+                js.import_words(dicts.user_words.clone());
+                js.import_words(dicts.file_words.clone());
+                // ONE user dictionary: of two spellings with the same letters the later replaces the earlier (C07's recorded
+                // key collision); what the dictionary lists now is what `export_words` returns
+                extra = js.export_words();
+                extra.sort();
+                sess.add("w25:js-words-listed-after-import", extra.len() as u64);
+            }
+            let markdown = i % 2 == 1;
+            let latin = rng.chance(1, 3);
+            let (text, placed) = w25_text(words, &clean, &tagged, &dict, DIALECTS[d], if imported { &extra } else { &[] }, &dicts.keys, latin, false, rng);
+            let input = w25_input("js", &text, &placed, d, markdown, imported);
+            sess.o();
+            sess.count(&format!("w25:js:{:?}:{}:{}", DIALECTS[d], if markdown { "markdown" } else { "plain" }, if imported { "imported-words" } else { "no-user-words" }));
+            let r = guarded(|| js.lint(text.clone(), if markdown { Language::Markdown } else { Language::Plain }).iter().map(|l| (l.span().start, l.span().end)).collect::<Vec<(usize, usize)>>());
+            let Ok(lints) = r else {
+                sess.fail("panic", "harper_wasm::Linter::lint panicked".into(), input, None);
+                continue;
+            };
+            // only SpellCheck is on: every lint is a spelling lint. Suggestions are judged in the harper-core stream; here: which
+            // words are reported, and where
+            let lints: Vec<(usize, usize, Vec<Vec<char>>)> = lints.into_iter().map(|l| (l.0, l.1, vec![])).collect();
+            let doc = if markdown { Document::new(&text, &harper_core::parsers::Markdown::default(), &*dicts.merged) } else { Document::new(&text, &PlainEnglish, &*dicts.merged) };
+            let single = |at: usize, len: usize| doc.get_tokens().iter().any(|t| matches!(t.kind, TokenKind::Word(_)) && t.span.start == at && t.span.end == at + len);
+            let (fails, counts) = w25_judge(&placed, &single, &lints, &|_| true, "by-js");
+            for c in counts {
+                sess.count(c);
+            }
+            if fails.is_empty() {
+                sess.nontrivial(&format!("w25js:{}:{}", d, text));
+            }
+            for (class, desc) in fails {
+                sess.fail(&class, format!("harper_wasm::Linter ({:?}, {}, {}): {} — text {:?}", DIALECTS[d], if markdown { "Markdown" } else { "plain" }, if imported { "after import_words" } else { "no user words" }, desc, trunc(&text, 120)), input.clone(), None);
+            }
+        }
+    }
+}
+
+/// harper-ls: the user dictionary is a FILE at the configured default path, `dialect` and `linters` come from the client's
+/// configuration, two documents are open at once (`plaintext` and `markdown`), each is changed once. ASCII texts, one
+/// publication per text: the diagnostics' ranges are the non-words' (line, column) ranges.
+fn w25_server(sess: &mut Session, ctx: &Ctx, words: &Words, dicts: &W25Dicts, rng: &mut Rng) -> Result<(), crate::lsclient::LsError> {
+    use crate::lsclient::*;
+    let thorough = ctx.tier == Tier::Thorough;
+    let (user_path, _file_dir, _) = set_home(&ctx.out.join("c06-home"));
+    if let Some(p) = user_path.parent() {
+        let _ = std::fs::create_dir_all(p);
+    }
+    // ONE dictionary file: only words with distinct lower-case forms (of two the later line would replace the earlier: C07)
+    let user_keys: std::collections::HashSet<String> = dicts.user_words.iter().map(|w| lownorm(&cs(w))).collect();
+    let all_user: Vec<String> = dicts.user_words.iter().cloned().chain(dicts.file_words.iter().filter(|w| !user_keys.contains(&lownorm(&cs(w)))).cloned()).collect();
+    if std::fs::write(&user_path, all_user.join("\n") + "\n").is_err() {
+        sess.count("w25:server-user-dictionary-not-writable");
+        return Ok(());
+    }
+    let dict = FstDictionary::curated();
+    let clean: Vec<usize> = (0..words.all.len()).filter(|i| clean_word(&words.all[*i])).collect();
+    let linters = serde_json::to_value(&only_spellcheck(Dialect::American).config).unwrap_or(Value::Null);
+    let sessions: Vec<(usize, &str)> = if thorough { vec![(0, "American"), (1, "British"), (2, "Canadian"), (3, "Australian")] } else { vec![(1, "British"), (3, "Australian")] };
+    for (d, dname) in sessions {
+        let cfg = json!({"harper-ls": {"linters": linters, "dialect": dname}});
+        let mut ls = LsSession::start()?;
+        ls.initialize(&cfg)?;
+        let docs = [("file:///c06-server/notes.txt", "plaintext", false), ("file:///c06-server/readme.md", "markdown", true)];
+        let rounds = if thorough { 8 } else { 5 };
+        let tagged = w25_tagged(words, &clean, &dict, DIALECTS[d]);
+        for round in 0..rounds {
+            // both documents get a text before either publication is read
+            let mut sent: Vec<(String, Vec<Placed>)> = vec![];
+            for (uri, lang, _) in docs.iter() {
+                let mut text = String::new();
+                let mut placed: Vec<Placed> = vec![];
+                for _ in 0..3 {
+                    let (t, p) = w25_text(words, &clean, &tagged, &dict, DIALECTS[d], &all_user, &dicts.keys, false, true, rng);
+                    let off = text.chars().count();
+                    placed.extend(p.into_iter().map(|mut x| { x.at += off; x }));
+                    text.push_str(&t);
+                }
+                if round == 0 {
+                    ls.notify("textDocument/didOpen", did_open(uri, lang, &text))?;
+                } else {
+                    ls.notify("textDocument/didChange", did_change(uri, round as i64 + 1, &text))?;
+                }
+                sent.push((text, placed));
+            }
+            ls.quiesce(&cfg)?;
+            for ((uri, _, markdown), (text, placed)) in docs.iter().zip(sent.iter()) {
+                sess.o();
+                sess.count(&format!("w25:server:{}:{}", dname, if *markdown { "markdown" } else { "plaintext" }));
+                let input = w25_input("server", text, placed, d, *markdown, true);
+                let Some(publ) = ls.last_publication(uri) else {
+                    sess.count("w25:server-no-publication");
+                    continue;
+                };
+                // ASCII text: (line, column) → char offset
+                let line_starts: Vec<usize> = std::iter::once(0).chain(text.char_indices().filter(|(_, c)| *c == '\n').map(|(i, _)| i + 1)).collect();
+                let off = |p: &Value| -> usize { line_starts.get(p["line"].as_u64().unwrap_or(0) as usize).copied().unwrap_or(0) + p["character"].as_u64().unwrap_or(0) as usize };
+                let lints: Vec<(usize, usize, Vec<Vec<char>>)> = publ.as_array().map(|a| a.iter().map(|dg| (off(&dg["range"]["start"]), off(&dg["range"]["end"]), vec![])).collect()).unwrap_or_default();
+                let doc = if *markdown { Document::new(text, &harper_core::parsers::Markdown::default(), &*dicts.merged) } else { Document::new(text, &PlainEnglish, &*dicts.merged) };
+                let single = |at: usize, len: usize| doc.get_tokens().iter().any(|t| matches!(t.kind, TokenKind::Word(_)) && t.span.start == at && t.span.end == at + len);
+                let (fails, counts) = w25_judge(placed, &single, &lints, &|_| true, "by-server");
+                for c in counts {
+                    sess.count(c);
+                }
+                if fails.is_empty() {
+                    sess.nontrivial(&format!("w25ls:{}:{}", d, text));
+                }
+                for (class, desc) in fails {
+                    sess.fail(&class, format!("harper-ls ({}, {}, user dictionary file): {} — text {:?}", dname, if *markdown { "markdown" } else { "plaintext" }, desc, trunc(text, 120)), input.clone(), None);
+                }
+            }
+        }
+        ls.shutdown(&cfg)?;
+    }
+    Ok(())
+}
+
+/// the words the dictionary tags with a dialect, under all four dialects (the quick tier's main pass runs two): accepted exactly
+/// under their own dialect, alone and embedded
+fn w25_tagged_words(sess: &mut Session, ctx: &Ctx, words: &Words) {
+    let dict = FstDictionary::curated();
+    let tagged: Vec<usize> = (0..words.all.len()).filter(|i| clean_word(&words.all[*i]) && dict.get_word_metadata(&words.all[*i]).is_some_and(|m| m.dialect.is_some())).collect();
+    let stride = if ctx.tier == Tier::Thorough { 1 } else { 2 };
+    let results = par_map(4, 4, |d| {
+        let mut lg = only_spellcheck(DIALECTS[d]);
+        let dict = FstDictionary::curated();
+        let mut out = vec![];
+        for (n, &i) in tagged.iter().enumerate() {
+            if (n + ctx.seed as usize) % stride != 0 {
+                continue;
+            }
+            let w = &words.all[i];
+            let ws: String = w.iter().collect();
+            let admitted = dict.get_word_metadata(w).is_some_and(|m| m.dialect.is_none_or(|x| x == DIALECTS[d]));
+            for text in [ws.clone(), format!("They {} it, we saw.", ws)] {
+                let at = if text.len() == ws.len() { 0 } else { 5 };
+                let r = spelling_lints(&mut lg, &text).map(|(doc, lints)| {
+                    let flagged = lints.iter().any(|l| l.span.start < at + w.len() && at < l.span.end);
+                    let single = doc.get_tokens().iter().any(|t| matches!(t.kind, TokenKind::Word(_)) && t.span.start == at && t.span.end == at + w.len());
+                    (flagged, single)
+                });
+                out.push((text, admitted, r));
+            }
+        }
+        out
+    });
+    for (d, rs) in results.into_iter().enumerate() {
+        for (text, admitted, r) in rs {
+            sess.o();
+            let input = json!({"text": text, "dialect": d, "expect_flagged": !admitted});
+            match r {
+                Err(e) => sess.fail("panic", e, input, None),
+                Ok((flagged, single)) => {
+                    if admitted && flagged {
+                        sess.fail("listed-word-flagged-dialect-word", format!("{:?} is listed for {:?} but reported under it", text, DIALECTS[d]), input, None);
+                    } else if !admitted && !flagged && single {
+                        sess.fail("other-dialect-accepted-dialect-word", format!("{:?} is listed for another dialect only but accepted under {:?}", text, DIALECTS[d]), input, None);
+                    } else {
+                        sess.count(if admitted { "w25:dialect-word-accepted-under-its-dialect" } else { "w25:dialect-word-flagged-under-another" });
+                        sess.count(&format!("w25:dialect-words:{:?}", DIALECTS[d]));
+                    }
+                }
+            }
+        }
+    }
+}
+
+fn w25_replay(sess: &mut Session, ctx: &Ctx, words: &Words, v: &Value) {
+    let dicts = w25_dicts();
+    let text = v["text"].as_str().unwrap_or("").to_string();
+    let placed = w25_placed_of(v);
+    let d = (v["dialect"].as_u64().unwrap_or(0) as usize).min(3);
+    let markdown = v["markdown"].as_bool().unwrap_or(false);
+    let merged = v["merged"].as_bool().unwrap_or(false) || v["via"].as_str() != Some("core");
+    let _ = (ctx, words);
+    let dict = FstDictionary::curated();
+    for fresh in [false, true] {
+        let mut lg = if merged { only_spellcheck_on(dicts.merged.clone(), DIALECTS[d]) } else { only_spellcheck(DIALECTS[d]) };
+        let lgo = if fresh { None } else { Some(&mut lg) };
+        let r = if merged { w25_core(&text, &placed, DIALECTS[d], markdown, &dicts.merged, lgo, "in-sentence") } else { w25_core(&text, &placed, DIALECTS[d], markdown, &dict, lgo, "in-sentence") };
+        sess.o();
+        match r {
+            Err(e) => sess.fail("panic", e, v.clone(), None),
+            Ok(o) => {
+                for (class, desc) in o.fails {
+                    sess.fail(&class, desc, v.clone(), None);
+                }
+            }
+        }
+    }
+}
+
+fn w25_streams(sess: &mut Session, ctx: &Ctx, words: &Words) {
+    // its own generator state: the streams above draw the same numbers as before
+    let mut rng = Rng::new(ctx.seed ^ 0x7732_3563_3036);
+    let dicts = w25_dicts();
+    let t0 = std::time::Instant::now();
+    w25_tagged_words(sess, ctx, words);
+    let t1 = std::time::Instant::now();
+    w25_sentences(sess, ctx, words, &dicts, &mut rng);
+    let t2 = std::time::Instant::now();
+    w25_js(sess, ctx, words, &dicts, &mut rng);
+    let t3 = std::time::Instant::now();
+    if let Err(e) = w25_server(sess, ctx, words, &dicts, &mut rng) {
+        sess.count(&format!("w25:server-session-error:{}", trunc(&e.to_string(), 40)));
+    }
+    let t4 = std::time::Instant::now();
+    sess.add("w25:ms:dialect-words", (t1 - t0).as_millis() as u64);
+    sess.add("w25:ms:sentences", (t2 - t1).as_millis() as u64);
+    sess.add("w25:ms:js", (t3 - t2).as_millis() as u64);
+    sess.add("w25:ms:server", (t4 - t3).as_millis() as u64);
+}
+
 pub fn run(ctx: &Ctx) {
     let mut sess = Session::new(ctx);
     let mut rng = Rng::new(ctx.seed);
@@ -575,12 +1138,20 @@ pub fn run(ctx: &Ctx) {
                 lg.lint(&doc).into_iter().any(|l| l.lint_kind == LintKind::Spelling)
             });
             if flagged != Ok(false) {
-                sess.fail("listed-word-flagged", format!("still fails: {}", v), v.clone(), None);
+                let class = if uw.iter().filter_map(|w| w.as_str()).any(|w| user_word_of_other_dialect(&dict, w, Dialect::American)) { C06_USER_OTHER_DIALECT } else { "listed-word-flagged" };
+                sess.fail(class, format!("still fails: {}", v), v.clone(), None);
             }
             sess.o();
             sess.nontrivial("replay-a");
             sess.nontrivial("replay-b");
             sess.finish("replay of one recorded merged-dictionary input", false, json!({}));
+            return;
+        }
+        if v["kind"].as_str() == Some("w25") {
+            w25_replay(&mut sess, ctx, &words, &v);
+            sess.nontrivial("replay-a");
+            sess.nontrivial("replay-b");
+            sess.finish("replay of one recorded w25 text", false, json!({}));
             return;
         }
         if v["kind"].as_str() == Some("sugg-small") {
@@ -810,6 +1381,9 @@ pub fn run(ctx: &Ctx) {
         use harper_core::{MergedDictionary, MutableDictionary, WordMetadata};
         use std::sync::Arc;
         let mut user_words: Vec<String> = vec!["markdown".into(), "github".into(), "javascript".into(), "Zqxvword".into(), "zqxvlower".into(), "naïvetéx".into()];
+        // w25: the witnesses of the recorded finding `c06-user-word-of-other-dialect`, so that every run shows it
+        user_words.push("colour".into());
+        user_words.push("ARBOUR".into());
         // case variants of curated entries: lower-cased proper nouns, capitalised / upper-cased common words
         let nvar = if ctx.tier == Tier::Thorough { 1500 } else { 200 };
         let mut seen = 0;
@@ -868,7 +1442,10 @@ pub fn run(ctx: &Ctx) {
                 }
                 sess.count("merged:user-word");
                 if lints.iter().any(|l| l.span.start < at + wl && at < l.span.end) {
-                    sess.fail("listed-word-flagged", format!("{:?} is listed by the user dictionary of the merged (active) dictionary in exactly this capitalisation but is reported", w), json!({"text": text, "merged_user_words": [w], "dialect": 0}), None);
+                    // w25: the thorough tier (1 500 case variants) reaches upper-cased entries of another dialect (`ARBOUR`): the recorded
+                    // defect C07 knows as `c07-other-dialect-word`, classified narrowly here
+                    let class = if user_word_of_other_dialect(&dict, w, Dialect::American) { C06_USER_OTHER_DIALECT } else { "listed-word-flagged" };
+                    sess.fail(class, format!("{:?} is listed by the user dictionary of the merged (active) dictionary in exactly this capitalisation but is reported", w), json!({"text": text, "merged_user_words": [w], "dialect": 0}), None);
                 } else {
                     sess.nontrivial(&format!("merged:{}", w));
                 }
@@ -887,8 +1464,10 @@ pub fn run(ctx: &Ctx) {
         sess.count("sugg:dialect-word-and-random-edit-cases");
         merge_sugg(&mut sess, o, &key);
     }
+    // ---- w25: random sentences, plain and Markdown, four dialects, merged dictionary, harper-wasm, harper-ls ----
+    w25_streams(&mut sess, ctx, &words);
     sess.finish(
-        "O: every listed word of the curated dictionary (quick: every 3rd, offset by seed; thorough: all) × dialects (quick: American, British; thorough: all 4), alone and embedded in `We saw _ today.`, in its listed form and — for lower-case entries — capitalised and upper-case: must not be reported when the dialect admits it, must be reported when it is listed for another dialect only; non-words (edited / re-cased dictionary words, random letter strings; ground truth from an index keyed by to_lower∘normalized, independent of WordId) must be reported with a span covering exactly the word; every suggestion must be a word of the active dialect up to its first letter's case; the same through a MERGED dictionary (curated + a user dictionary holding case variants of curated entries and new words): every user word is accepted in its listed capitalisation. K: accept / contains_word / contains_exact_word vs the Lean model on a sample of those words, the model being given the matching slice of the real word list plus decoys. K sugg: the suggestion list of the lint a fresh REAL SpellCheck reports on a single flagged word vs Spell.lintSuggestions (the function suggestions_are_words_strong / lintSuggestions_are_words are about) given what suggest_correct_spelling(w, 100, 2|3|4) returns (the searches the back-off loop runs; all three in a share of the cases), the entries of the word list the candidates name with their dialect flag (from an index independent of WordId) plus decoys, the to_lower / normalized images and is_uppercase / to_uppercase of the first letters; streams: 44 misspellings (unit tests of spell_check.rs and spell/mod.rs, dialect words, no candidate within distance 2, non-ASCII first letters) plain / Capitalised / UPPER / all-but-the-first-letter upper-cased × dialects; EXHAUSTIVE small scope: every dictionary over six words at distances 1, 1, 2, 1 (capitalised entry), 3, 4 of the query, each absent / untagged / American / British (a real MutableDictionary) × query abcd / Abcd / aBCD (upper-case letters, but not the first) × no ghost / a candidate the dictionary does not know at distance 1 / at distance 3 (the unwrap of the dialect filter: panic) × SpellCheck American / British (quick: a quarter of the 73728, by seed); words listed for one dialect only seen from the dialects run; random single edits (insert / replace / delete / swap / double) of listed words, 30 % capitalised, 10 % upper-case, 10 % one inner letter upper-cased. O on them: one Spelling lint on exactly the word, at most three suggestions, all ReplaceWith, each a listed word of the active dialect up to its first letter's case, no panic on the curated dictionary; monitors: hf (every candidate is a listed spelling), UniqueKeys on the entries handed over. Non-trivial = distinct (dialect, word) K cases, distinct non-words and sugg cases with at least one suggestion.",
+        "O: every listed word of the curated dictionary (quick: every 3rd, offset by seed; thorough: all) × dialects (quick: American, British; thorough: all 4), alone and embedded in `We saw _ today.`, in its listed form and — for lower-case entries — capitalised and upper-case: must not be reported when the dialect admits it, must be reported when it is listed for another dialect only; non-words (edited / re-cased dictionary words, random letter strings; ground truth from an index keyed by to_lower∘normalized, independent of WordId) must be reported with a span covering exactly the word; every suggestion must be a word of the active dialect up to its first letter's case; the same through a MERGED dictionary (curated + a user dictionary holding case variants of curated entries and new words): every user word is accepted in its listed capitalisation. K: accept / contains_word / contains_exact_word vs the Lean model on a sample of those words, the model being given the matching slice of the real word list plus decoys. K sugg: the suggestion list of the lint a fresh REAL SpellCheck reports on a single flagged word vs Spell.lintSuggestions (the function suggestions_are_words_strong / lintSuggestions_are_words are about) given what suggest_correct_spelling(w, 100, 2|3|4) returns (the searches the back-off loop runs; all three in a share of the cases), the entries of the word list the candidates name with their dialect flag (from an index independent of WordId) plus decoys, the to_lower / normalized images and is_uppercase / to_uppercase of the first letters; streams: 44 misspellings (unit tests of spell_check.rs and spell/mod.rs, dialect words, no candidate within distance 2, non-ASCII first letters) plain / Capitalised / UPPER / all-but-the-first-letter upper-cased × dialects; EXHAUSTIVE small scope: every dictionary over six words at distances 1, 1, 2, 1 (capitalised entry), 3, 4 of the query, each absent / untagged / American / British (a real MutableDictionary) × query abcd / Abcd / aBCD (upper-case letters, but not the first) × no ghost / a candidate the dictionary does not know at distance 1 / at distance 3 (the unwrap of the dialect filter: panic) × SpellCheck American / British (quick: a quarter of the 73728, by seed); words listed for one dialect only seen from the dialects run; random single edits (insert / replace / delete / swap / double) of listed words, 30 % capitalised, 10 % upper-case, 10 % one inner letter upper-cased. O on them: one Spelling lint on exactly the word, at most three suggestions, all ReplaceWith, each a listed word of the active dialect up to its first letter's case, no panic on the curated dictionary; monitors: hf (every candidate is a listed spelling), UniqueKeys on the entries handed over. Non-trivial = distinct (dialect, word) K cases, distinct non-words and sugg cases with at least one suggestion. w25 (O + K acc on a sample): every dialect-tagged word × all four dialects (both tiers), alone and embedded; random texts of 1–3 sentences of 3–7 words (listed words admitted by the dialect in listed / Capitalised / UPPER form, 1 in 8 tagged with that dialect; non-words incl. Latin letters outside ASCII, an earlier non-word again with probability 1/3; user / file words) with nine separators and five sentence ends × 4 dialects × plain / Markdown × curated / merged[curated,user,file] through a long-lived LintGroup and (every 4th) a fresh SpellCheck: listed and user words not reported, non-words that are one Word token reported once with the exact span, every suggestion a word of the dialect; the same texts through harper_wasm::Linter (4 dialects, only SpellCheck on, before / after import_words, Plain / Markdown) and through harper-ls (user dictionary file, dialect + linters from the client configuration, a plaintext and a markdown document open at once, didOpen then didChange).",
         ctx.tier == Tier::Thorough,
         json!({"exhaustive_scope": if ctx.tier == Tier::Thorough { "all dictionary words × 4 dialects × {listed, Capitalised, UPPER} × {alone, embedded}" } else { "one third of the dictionary × 2 dialects" }}),
     );
